@@ -263,13 +263,22 @@ class Env:
         if cls == 'esp':
             from sc3.seq.eventstream import EventStreamPlayer, EventStreamCleanup
 
-            class NoStream:
-                def reset(self): pass
+            class CountingStream:                 # the subclass's own state: how often was the source stream rewound?
+                resets = 0
+
+                def reset(self): self.resets += 1
 
                 def next(self, inval=None): raise StopStream
+
+            class CountingCleanup(EventStreamCleanup):
+                runs = 0
+
+                def run(self):
+                    self.runs += 1
+                    super().run()
             r = EventStreamPlayer.__new__(EventStreamPlayer)
             Routine.__init__(r, func)            # the script is the body; everything else is EventStreamPlayer's
-            r._stream, r._event, r._is_muted, r._cleanup = NoStream(), dict(), False, EventStreamCleanup()
+            r._stream, r._event, r._is_muted, r._cleanup = CountingStream(), dict(), False, CountingCleanup()
             return r
         raise ValueError(cls)
 
@@ -326,6 +335,7 @@ class Env:
                 'states': [r.state.value - 1 for r in self.routines],
                 'fresh': [r._iterator is None for r in self.routines],
                 'parents': [self.tid(r.parent) for r in self.routines],
+                'sub': [[r._stream.resets, r._cleanup.runs] if hasattr(r, '_cleanup') else None for r in self.routines],
                 'lastv': [self.enc(r._last_value) for r in self.routines],
                 'terms': [None if r._terminal_value is Routine._SENTINEL else self.enc(r._terminal_value) for r in self.routines],
                 'queue': [[self.num(e[0]), self.tid(e[2].task) - 1] for e in q],
@@ -436,6 +446,39 @@ def probes():
     r1, r2 = Routine(gen), Routine(gen)
     if r1._terminal_value is not Routine._SENTINEL or r1._iterator is not None or r1.parent is not None:
         bad.append('a fresh Routine is not in its initial state')
+    # a REAL EventStreamPlayer whose source stream, evaluated inside the player's body, tries to reset / stop / pause the
+    # player: refused, and refused means NO effect (the source stream is not rewound, the cleanup is not run)
+    try:
+        from sc3.seq.eventstream import EventStreamPlayer
+        from sc3.base.stream import FunctionStream
+        seen = {'resets': 0, 'n': 0, 'out': []}
+
+        def nxt(inval):
+            seen['n'] += 1
+            if seen['n'] == 2:
+                for name in ('reset', 'stop', 'pause'):
+                    try:
+                        getattr(player, name)()
+                        seen['out'].append(name + ' accepted')
+                    except RoutineException:
+                        seen['out'].append('refused')
+            if seen['n'] > 3:
+                raise StopStream
+            return {'delta': 1, 'degree': seen['n']}
+
+        def rst():
+            seen['resets'] += 1
+        player = EventStreamPlayer(FunctionStream(nxt, rst))
+        player.mute()                       # events are produced, not played
+        vals = []
+        for _ in range(3):
+            vals.append(player.next())
+        if seen['out'] != ['refused'] * 3 or seen['resets'] != 0 or seen['n'] != 3 or player.state.name != 'Suspended':
+            bad.append('real EventStreamPlayer: reset/stop/pause from inside its own body: %s, source stream rewound %d times, '
+                       'produced %d events, state %s (expected: three refusals, no rewind, Suspended)' % (
+                           seen['out'], seen['resets'], seen['n'], player.state.name))
+    except BaseException as e:
+        bad.append('real EventStreamPlayer probe failed to run: %s: %s' % (type(e).__name__, e))
     main.reset(); main.current_tt = main.main_tt
     return bad
 
